@@ -27,3 +27,15 @@ bool fixtureSearchGood(std::vector<int> &seen, int x)
     std::sort(seen.begin(), seen.end());
     return std::binary_search(seen.begin(), seen.end(), x);
 }
+
+// Whole-sequence comparisons are order sensitive (engines.whole_sequence_compares).
+#include <map>
+bool fixtureSeqEqBad(const std::map<int, std::vector<int>> &a, const std::map<int, std::vector<int>> &b)
+{
+    return a == b;
+}
+
+bool fixtureSeqEqGood(const std::vector<int> &a, int x)
+{
+    return std::find(a.begin(), a.end(), x) != a.end(); // an iterator against end(): not a sequence comparison
+}
